@@ -992,11 +992,12 @@ def require_props_present(res, what):
             lambda: '%s: vec property has shape %r' % (what, np.asarray(res.atoms.vec).shape))
 
 
-def require_rotation(T, what):
+def require_rotation(T, what, floor=0.0):
+    """floor: allowance for Box's documented clean-up of components below 1e-9 of the largest one (class E cells only)"""
     T = np.asarray(T, dtype=float)
     require(T.shape == (3, 3) and np.all(np.isfinite(T)), lambda: '%s: transform is not a finite 3x3 array: %r' % (what, T))
     e = np.abs(T.T @ T - np.eye(3)).max()
-    require(e <= 1e-8, lambda: '%s: returned transform is not orthogonal (|T^t T - I| = %.3g)\n%r' % (what, e, T))
+    require(e <= 1e-8 + floor, lambda: '%s: returned transform is not orthogonal (|T^t T - I| = %.3g)\n%r' % (what, e, T))
     d = float(np.linalg.det(T))
     require(abs(d - 1.0) <= 1e-8, lambda: '%s: returned transform is not a proper rotation (det = %.10g)' % (what, d))
     return T
@@ -1609,7 +1610,8 @@ def _judge_rotate(out, snap, V, o, pos0, U, what, sc, labels=None, almost=False)
     up to 1e-9 max|W| in first order, |dvol| / vol <= 3e-9 cond(W) - the cells of the other classes have no such components"""
     res, T = out
     det = idet(U.tolist())
-    T = require_rotation(T, what)
+    # an almost-symmetric cell: a zeroed component of up to 1e-9 max|W| turns a new cell vector by up to 1e-9 cond(W)
+    T = require_rotation(T, what, floor=(4e-9 * float(np.linalg.cond(np.asarray(U, dtype=float) @ V)) if almost else 0.0))
     N = len(pos0)
     n = abs(det)
     require(res.natoms == N * n, lambda: '%s: %d atoms, expected %d x |det| = %d' % (what, res.natoms, N, N * n))
